@@ -277,7 +277,7 @@ def nodes(e) -> int:
 def lrec_grammar(rng: random.Random):
     """Layered expression grammars with direct, aliased, mutual, optional-prefixed and named left recursion,
     mixed with right recursion and unary prefixes. Returns (grammar, kind)."""
-    kind = rng.choice(['direct', 'direct2', 'aliased', 'mutual', 'optprefix', 'named', 'rightmix', 'unary', 'layered', 'prefix2', 'prefix2', 'postfix', 'optcall'])
+    kind = rng.choice(['direct', 'direct2', 'aliased', 'aliased2', 'mutual', 'optprefix', 'optlead', 'named', 'rightmix', 'unary', 'layered', 'prefix2', 'prefix2', 'postfix', 'optcall'])
     num = ('pat', r'\d+')
     ident = ('pat', r'[a-z]+')
     paren = [('tok', '('), 'cut', ('call', 'expr'), ('tok', ')')] if rng.random() < 0.4 else [('tok', '('), ('call', 'expr'), ('tok', ')')]
@@ -314,6 +314,17 @@ def lrec_grammar(rng: random.Random):
         rules = [('expr', [], ('call', 'e')),
                  ('e', [], ('choice', [('seq', [('call', 'expr'), ('tok', op1), ('call', 'term')]), ('call', 'term')])),
                  ('term', [], atom)]
+    elif kind == 'aliased2':
+        # the alias (a non-leader on the cycle) is called at the same position by two alternatives
+        rules = [('expr', [], ('call', 'e')),
+                 ('e', [], ('choice', [('seq', [('call', 'expr'), ('tok', op1), ('call', 'term')]),
+                                       ('seq', [('call', 'expr'), ('tok', '-' if op1 == '+' else '+'), ('call', 'term')]), ('call', 'term')])),
+                 ('term', [], atom)]
+    elif kind == 'optlead':
+        # the recursion sits in an optional: expr = [expr op] term ; parentheses may hold nothing: '(' [expr] ')'
+        patom = ('choice', [num, ('seq', [('tok', '('), ('opt', ('call', 'expr')), ('tok', ')')])]) if rng.random() < 0.5 else atom
+        rules = [('expr', [], ('seq', [('opt', ('seq', [('call', 'expr'), ('tok', op1)])), ('call', 'term')])),
+                 ('term', [], patom)]
     elif kind == 'mutual':
         rules = [('expr', [], ('choice', [('seq', [('call', 'sub'), ('tok', op1), ('call', 'term')]), ('call', 'term')])),
                  ('sub', [], ('choice', [('seq', [('call', 'expr'), ('tok', op2), ('call', 'term')]), ('call', 'expr')])),
